@@ -27,3 +27,8 @@ def run(ctx):
     S.r01_3_recursion(ctx)
     S.r01_4_retag(ctx)
     S.r01_5_scalar(ctx)
+    S.r02_3_admission(ctx)
+    S.r02_6_extraneous(ctx)
+    S.r04_9_duplicate_keys(ctx)
+    S.r04_4_no_dynamic_lookup(ctx)
+    S.r03_8_whole_node(ctx)
